@@ -1676,6 +1676,18 @@ func (mgr *Manager) convertStreamJob(allConverters []*converters.CachedConverter
 func (mgr *Manager) invalidateConverters(updatedStreams *bitmask.LongBitmask) {
 	for _, converter := range mgr.converters {
 		invalidatedStreams := converter.InvalidateChangedStreams(updatedStreams)
+		// results of a job that was still running when the converter was detached from its
+		// last tag are dropped like any other, but a detached converter is not run again
+		attached := false
+		for _, tag := range mgr.tags {
+			if slices.Contains(tag.converters, converter) {
+				attached = true
+				break
+			}
+		}
+		if !attached {
+			continue
+		}
 		mgr.streamsToConvert[converter.Name()].Or(invalidatedStreams)
 	}
 }
